@@ -118,6 +118,12 @@ func registerCompiledRoute(router *server.Router, route *ast.Route, bytecode []b
 
 // createCompiledRouteHandler creates an HTTP handler that executes compiled bytecode
 func createCompiledRouteHandler(route *ast.Route, bytecode []byte, wsHub *websocket.Hub) server.RouteHandler {
+	// The type definitions of the module this route belongs to. The handler
+	// keeps the ones that were current when it was created: under `glyph dev` a
+	// later load (even one that is refused) replaces the package-level set while
+	// this server is still answering.
+	typeDefs := compiledTypeDefs
+
 	return func(ctx *server.Context) error {
 		// Create VM instance
 		vmInstance := vm.NewVM()
@@ -193,7 +199,7 @@ func createCompiledRouteHandler(route *ast.Route, bytecode []byte, wsHub *websoc
 					// interpreter path does. Without this a compiled route
 					// accepts any body at all: `< input: NewUser` was enforced
 					// only when a provider injection forced interpreter mode.
-					if err := validateCompiledInput(route, bodyMap); err != nil {
+					if err := validateCompiledInputWith(typeDefs, route, bodyMap); err != nil {
 						ctx.Request.Body.Close()
 						return sendClientError(ctx, err.Error())
 					}
@@ -786,6 +792,12 @@ func setCompiledTypeDefs(module *ast.Module) {
 // interpreter.go:558. Fields carrying a default are not treated as required,
 // so this does not reject bodies the interpreter would accept.
 func validateCompiledInput(route *ast.Route, body map[string]interface{}) error {
+	return validateCompiledInputWith(compiledTypeDefs, route, body)
+}
+
+// validateCompiledInputWith is validateCompiledInput against a given set of
+// type definitions.
+func validateCompiledInputWith(typeDefs map[string]ast.TypeDef, route *ast.Route, body map[string]interface{}) error {
 	if route.InputType == nil {
 		return nil
 	}
@@ -793,13 +805,13 @@ func validateCompiledInput(route *ast.Route, body map[string]interface{}) error 
 	if !ok {
 		return nil
 	}
-	typeDef, exists := compiledTypeDefs[named.Name]
+	typeDef, exists := typeDefs[named.Name]
 	if !exists {
 		return nil
 	}
 
 	checker := interpreter.NewTypeChecker()
-	checker.SetTypeDefs(compiledTypeDefs)
+	checker.SetTypeDefs(typeDefs)
 	if err := checker.ValidateObjectAgainstTypeDef(body, typeDef); err != nil {
 		return fmt.Errorf("input validation failed: %v", err)
 	}
